@@ -1,12 +1,13 @@
-(* C04/Entry.v — entry point of the extracted model: cluster cases and disk scenarios (C04/Model.v run_case) and
-   the erasure-coded cases (C04/RSModel.v, first line 90). *)
+(* C04/Entry.v — entry point of the extracted model: cluster cases (C04/Model.v cstep under C04/Seed.v's two window
+   events), disk scenarios (first line 70, C04/Model.v drun) and the erasure-coded cases (C04/RSModel.v, first line 90). *)
 From Coq Require Import List ZArith.
-From BLB Require C04.Model C04.RSModel.
+From BLB Require C04.Model C04.RSModel C04.Seed.
 Import ListNotations.
 Open Scope Z_scope.
 
 Definition run_case_all (ops : list (list Z)) : list (list Z) :=
   match ops with
   | (90 :: _) :: _ => BLB.C04.RSModel.rs_run ops
-  | _ => BLB.C04.Model.run_case ops
+  | [70] :: _ => BLB.C04.Model.run_case ops
+  | _ => BLB.C04.Seed.srun BLB.C04.Model.cinit ops
   end.
